@@ -66,6 +66,27 @@ class Tup:
 
 
 @dataclass(frozen=True)
+class In:
+    """the (unknown) value a state field had on entry; flows through copies only"""
+    name: str
+
+
+def tflat(t) -> frozenset:
+    if isinstance(t, tuple):
+        out = frozenset()
+        for x in t:
+            out |= tflat(x)
+        return out
+    return t or frozenset()
+
+
+def tunion(a, b):
+    if isinstance(a, tuple) and isinstance(b, tuple) and len(a) == len(b):
+        return tuple(tunion(x, y) for x, y in zip(a, b))
+    return tflat(a) | tflat(b)
+
+
+@dataclass(frozen=True)
 class Sgn:
     """an unknown number known to be >= 0 ('+') or <= 0 ('-')"""
     s: str
@@ -288,16 +309,17 @@ class PA:
 # --------------------------------------------------------------------------- partition
 
 class Part:
-    __slots__ = ("env", "heap", "pa", "tag")
+    __slots__ = ("env", "heap", "pa", "tag", "taint")
 
-    def __init__(self, env=None, heap=None, pa=None, tag=()):
+    def __init__(self, env=None, heap=None, pa=None, tag=(), taint=None):
         self.env: Dict[str, Tuple[object, bool]] = env if env is not None else {}
         self.heap: Dict[Tuple[object, str], object] = heap if heap is not None else {}
         self.pa: PA = pa if pa is not None else PA()
         self.tag = tag
+        self.taint: Dict[tuple, object] = taint if taint is not None else {}
 
     def copy(self) -> "Part":
-        return Part(dict(self.env), dict(self.heap), self.pa.copy(), self.tag)
+        return Part(dict(self.env), dict(self.heap), self.pa.copy(), self.tag, dict(self.taint))
 
     def join(self, o: "Part") -> "Part":
         env = {}
@@ -313,7 +335,10 @@ class Part:
             v = join_val(self.heap[k], o.heap[k])
             if v is not TOP:
                 heap[k] = v
-        return Part(env, heap, self.pa.join(o.pa), self.tag)
+        taint = dict(self.taint)
+        for k, t in o.taint.items():
+            taint[k] = tunion(taint[k], t) if k in taint else t
+        return Part(env, heap, self.pa.join(o.pa), self.tag, taint)
 
     def widen_from(self, old: "Part") -> "Part":
         """self = new state at a loop head, old = previous: anything that changed goes to TOP."""
@@ -321,7 +346,7 @@ class Part:
         return j
 
     def same(self, o: "Part") -> bool:
-        return self.env == o.env and self.heap == o.heap and self.pa.rel == o.pa.rel
+        return self.env == o.env and self.heap == o.heap and self.pa.rel == o.pa.rel and self.taint == o.taint
 
 
 # --------------------------------------------------------------------------- the engine
@@ -376,7 +401,10 @@ class Interp:
                  nonempty_loops: Optional[Set[str]] = None,
                  local_domains: Optional[Dict[str, frozenset]] = None,
                  split_vars: Optional[List[str]] = None,
-                 maxp: Optional[int] = None):
+                 maxp: Optional[int] = None,
+                 taint: bool = False, sinks: Optional[list] = None,
+                 param_taints: Optional[Dict[str, object]] = None,
+                 init_taint: Optional[Dict[tuple, object]] = None):
         self.prog = prog
         self.fi = fi
         self.cfg: CFG = cfg_of(fi.node)
@@ -393,6 +421,11 @@ class Interp:
         self.axioms = list(axioms or [])
         self.nonempty_loops = set(nonempty_loops or ())
         self.split_vars = list(split_vars or [])
+        self.taint_mode = taint
+        self.sinks = sinks if sinks is not None else []
+        self.param_taints = param_taints or {}
+        self.init_taint = init_taint or {}
+        self._call_taint: Dict[int, object] = {}
         if maxp:
             self.MAXP = maxp
         self.locals = self._locals()
@@ -877,6 +910,8 @@ class Interp:
         if isinstance(target, FuncInfo):
             if record:
                 self.call_log.append((e, target.key))
+            if not record:
+                return TOP
             if self.interprocedural and self.depth < 6 and not any(isinstance(a, ast.Starred) for a in e.args):
                 return self._inline(target, e, args, kw, p)
             # unknown effect on the objects passed
@@ -1004,9 +1039,21 @@ class Interp:
                     pvals = self.possible_values(t, p)
                     if pvals is not None and len(pvals) == 1:
                         pv[pos[i]] = Const(pvals[0]) if not isinstance(pv.get(pos[i]), Const) else pv[pos[i]]
+        ptaint = {}
+        if self.taint_mode:
+            for i, actual in enumerate(call.args):
+                if i < len(pos) and not isinstance(actual, ast.Starred):
+                    ptaint[pos[i]] = self.taint_of(actual, p)
+            for k in call.keywords:
+                if k.arg:
+                    ptaint[k.arg] = self.taint_of(k.value, p)
         sub = Interp(self.prog, target, domains=self.domains, param_vals=pv, param_domains=pdom,
                      init_heap=p.heap, interprocedural=True, part_key="bound", depth=self.depth + 1,
-                     idioms=self.idioms, maxp=4)
+                     idioms=self.idioms, maxp=4, taint=self.taint_mode, sinks=self.sinks, param_taints=ptaint,
+                     init_taint={k: t for k, t in p.taint.items() if k[0] == "h"} if self.taint_mode else None,
+                     axioms=self.callee_axioms.get(target.qualname) if hasattr(self, "callee_axioms") else None)
+        if hasattr(self, "callee_axioms"):
+            sub.callee_axioms = self.callee_axioms
         sub.run()
         self.sub_results = getattr(self, "sub_results", [])
         self.sub_results.append((call, target.key, sub))
@@ -1016,7 +1063,13 @@ class Interp:
             return TOP
         ret = None
         heap = None
-        for v, part in sub.returns:
+        rt = None
+        htaint: Dict[tuple, object] = {}
+        for v, part, t in sub.returns:
+            rt = t if rt is None else tunion(rt, t)
+            for k, tt in part.taint.items():
+                if k[0] == "h":
+                    htaint[k] = tunion(htaint[k], tt) if k in htaint else tt
             ret = v if ret is None else join_val(ret, v)
             if heap is None:
                 heap = dict(part.heap)
@@ -1033,7 +1086,111 @@ class Interp:
         for oid in reach:
             pref = f"@{oid}."
             p.pa.kill(lambda t, pref=pref: pref in t)
+        if self.taint_mode:
+            for k, tt in htaint.items():
+                p.taint[k] = tt
+            self._call_taint[id(call)] = rt if rt is not None else frozenset()
         return ret if ret is not None else TOP
+
+    # ----------------------------------------------------------- taint (information flow)
+    def taint_of(self, e: Optional[ast.AST], p: Part):
+        if e is None or not self.taint_mode:
+            return frozenset()
+        if isinstance(e, ast.Constant):
+            return frozenset()
+        if isinstance(e, ast.Name):
+            return p.taint.get(("n", e.id), frozenset()) if e.id in self.locals else frozenset()
+        if isinstance(e, (ast.Tuple, ast.List)):
+            return tuple(self.taint_of(x, p) for x in e.elts)
+        if isinstance(e, ast.Call):
+            if id(e) in self._call_taint:
+                return self._call_taint[id(e)]
+            t = frozenset()
+            for a in e.args:
+                t |= tflat(self.taint_of(a.value if isinstance(a, ast.Starred) else a, p))
+            for k in e.keywords:
+                t |= tflat(self.taint_of(k.value, p))
+            if isinstance(e.func, ast.Attribute):
+                t |= tflat(self.taint_of(e.func.value, p))
+            return t
+        # a value that constant propagation determines does not depend on anything
+        v = self.eval(e, p, record=False)
+        if isinstance(v, Const):
+            return frozenset()
+        if isinstance(e, ast.Attribute):
+            base = self.eval(e.value, p, record=False)
+            if isinstance(base, Obj):
+                return p.taint.get(("h", base.oid, e.attr), frozenset())
+            return tflat(self.taint_of(e.value, p))
+        if isinstance(e, ast.Subscript):
+            t = self.taint_of(e.value, p)
+            if isinstance(t, tuple):
+                i = self.eval(e.slice, p, record=False) if not isinstance(e.slice, ast.Slice) else None
+                if isinstance(i, Const) and isinstance(i.v, int) and -len(t) <= i.v < len(t):
+                    return t[i.v]
+            st = frozenset()
+            for sub in ast.walk(e.slice):
+                if isinstance(sub, (ast.Name, ast.Attribute)):
+                    st |= tflat(self.taint_of(sub, p))
+            return tflat(t) | st
+        if isinstance(e, ast.Starred):
+            return self.taint_of(e.value, p)
+        t = frozenset()
+        for c in ast.iter_child_nodes(e):
+            if isinstance(c, ast.expr):
+                t |= tflat(self.taint_of(c, p))
+            elif isinstance(c, ast.comprehension):
+                t |= tflat(self.taint_of(c.iter, p))
+                for cond in c.ifs:
+                    t |= tflat(self.taint_of(cond, p))
+        return t
+
+    def _taint_key(self, e: ast.AST, p: Part):
+        if isinstance(e, ast.Name):
+            return ("n", e.id)
+        if isinstance(e, ast.Attribute):
+            base = self.eval(e.value, p, record=False)
+            if isinstance(base, Obj):
+                return ("h", base.oid, e.attr)
+            return self._taint_key(e.value, p)
+        if isinstance(e, ast.Subscript):
+            return self._taint_key(e.value, p)
+        return None
+
+    def assign_taint(self, target: ast.AST, t, p: Part):
+        if not self.taint_mode:
+            return
+        if isinstance(target, ast.Name):
+            p.taint[("n", target.id)] = t
+        elif isinstance(target, (ast.Tuple, ast.List)):
+            n = len(target.elts)
+            for i, el in enumerate(target.elts):
+                self.assign_taint(el, t[i] if isinstance(t, tuple) and len(t) == n else tflat(t), p)
+        elif isinstance(target, ast.Starred):
+            self.assign_taint(target.value, tflat(t), p)
+        elif isinstance(target, ast.Attribute):
+            base = self.eval(target.value, p, record=False)
+            if isinstance(base, Obj):
+                p.taint[("h", base.oid, target.attr)] = tflat(t)
+            else:
+                k = self._taint_key(target.value, p)
+                if k is not None:
+                    p.taint[k] = tunion(p.taint.get(k, frozenset()), tflat(t))
+        elif isinstance(target, ast.Subscript):
+            k = self._taint_key(target.value, p)
+            if k is not None:
+                idx = frozenset()
+                for sub in ast.walk(target.slice):
+                    if isinstance(sub, (ast.Name, ast.Attribute)):
+                        idx |= tflat(self.taint_of(sub, p))
+                p.taint[k] = tflat(p.taint.get(k, frozenset())) | tflat(t) | idx
+            self._inplace(target.value, p)
+
+    def _inplace(self, container: ast.AST, p: Part):
+        """record an in-place write to a container whose abstract value is an entry token"""
+        v = self.eval(container, p, record=False)
+        if isinstance(v, In):
+            self.sinks.append(("inplace", self.fi.key, self._cur_node.ast, frozenset([v.name]), ast.unparse(container)))
 
     # ----------------------------------------------------------- statements
     def assign(self, target: ast.AST, val, p: Part, value_expr: Optional[ast.AST] = None):
@@ -1101,6 +1258,10 @@ class Interp:
             self.eval(a, p)
             out = []
             ev = self.eval_test(a, p)
+            if self.taint_mode and ev is None:
+                tt = tflat(self.taint_of(a, p))
+                if tt:
+                    self.sinks.append(("branch", self.fi.key, a, tt, ast.unparse(a)))
             for truth in (True, False):
                 if ev is not None and ev != truth:
                     continue
@@ -1112,6 +1273,8 @@ class Interp:
             itv = self.eval(a.iter, p)
             body = p.copy()
             self.assign(a.target, TOP, body)
+            if self.taint_mode:
+                self.assign_taint(a.target, tflat(self.taint_of(a.iter, p)), body)
             lid = ("loop", n.id)
             body.tag = tuple(sorted(set(body.tag) | {lid}, key=repr))
             if ast.unparse(a.iter) in self.nonempty_loops and lid not in p.tag:
@@ -1130,13 +1293,19 @@ class Interp:
                 if r is not None:
                     return r
             v = self.eval(a.value, p)
+            tv = self.taint_of(a.value, p) if self.taint_mode else None
             for t in a.targets:
                 self.assign(t, v, p, a.value)
+                if self.taint_mode:
+                    self.assign_taint(t, tv, p)
             return [(None, p)]
         if isinstance(a, ast.AnnAssign):
             if a.value is not None:
                 v = self.eval(a.value, p)
+                tv = self.taint_of(a.value, p) if self.taint_mode else None
                 self.assign(a.target, v, p, a.value)
+                if self.taint_mode:
+                    self.assign_taint(a.target, tv, p)
             return [(None, p)]
         if isinstance(a, ast.AugAssign):
             load = _as_load(a.target)
@@ -1144,11 +1313,15 @@ class Interp:
             ast.copy_location(binop, a)
             ast.fix_missing_locations(binop)
             v = self.eval(binop, p)
+            tv = tflat(self.taint_of(a.target, p)) | tflat(self.taint_of(a.value, p)) if self.taint_mode else None
             self.assign(a.target, v, p)
+            if self.taint_mode:
+                self.assign_taint(a.target, tv, p)
             return [(None, p)]
         if isinstance(a, ast.Return):
             v = self.eval(a.value, p) if a.value is not None else Const(None)
-            self.returns.append((v, p))
+            t = self.taint_of(a.value, p) if (self.taint_mode and a.value is not None) else frozenset()
+            self.returns.append((v, p, t))
             return [(None, p)]
         if isinstance(a, ast.Expr):
             self.eval(a.value, p)
@@ -1213,6 +1386,9 @@ class Interp:
     def initial(self) -> Part:
         p = Part()
         p.heap = dict(self.init_heap)
+        p.taint = dict(self.init_taint)
+        for name, t in self.param_taints.items():
+            p.taint[("n", name)] = t
         self._axioms(p)
         for name in self.fi.params:
             v = self.param_vals.get(name)
@@ -1308,7 +1484,7 @@ class Interp:
                 env[k] = (v, b)
         heap = {k: v for k, v in new.heap.items() if old.heap.get(k) == v}
         pa = PA({k: r for k, r in new.pa.rel.items() if old.pa.rel.get(k) == r})
-        return Part(env, heap, pa, new.tag)
+        return Part(env, heap, pa, new.tag, dict(new.taint))
 
 
 def _volatile(term: str) -> bool:
